@@ -469,6 +469,6 @@ func TestC02(t *testing.T) {
 		"a case is one generated resource (type drawn uniformly from the 146 R4 types, fields populated by a descriptor walk); every element path of its google/fhir JSON rendering is evaluated un-indexed, fully indexed, mixed, without the root type, with a mismatching root, with `.value` on date/time leaves and with non-element names appended; an evaluation is one (resource, source string); non-trivial = path length ≥ 2 selecting ≥ 1 node (or a negative program on a non-empty parent); distinct = FNV-64 of (resource text, source)",
 		"google/fhir jsonformat defines the FHIR JSON rendering", "un-indexed spellings are asserted only where every prefix selects nodes of one type (the statement is silent on heterogeneous collections)", "fraction digits beyond milliseconds are outside System DateTime/Time")
 	runProperty(t, r,
-		Stage[c02Case]{Name: "resources", Gen: c02Gen, Run: c02Run, N: pick(300, 4000)},
+		Stage[c02Case]{Name: "resources", Gen: c02Gen, Run: c02Run, N: pick(600, 4000)},
 	)
 }
